@@ -223,6 +223,20 @@ def scenarios(pid, tier, seed):
             sc = dyn_gen.gen_tree(rng, depth=rng.choice([2, 2, 3]), p_sched=0.5)
             sc["late_fill"] = True
             out.append(("late-fill", sc))
+    if pid in ("C08", "C04"):
+        # job steps that keep the loop busy (time passes while the scheduler has work to do): chains and windows of
+        # short busy jobs whose total exceeds the timeout
+        for i in range(max(20, n_r // 20)):
+            n = rng.randint(3, 8)
+            w = rng.choice([None, None, 1, 2])
+            kids = []
+            for k in range(n):
+                kids.append(dyn_gen.J("b%d" % k, 0, busy=rng.choice([1, 1, 2]), h=k,
+                                      req=(["b%d" % (k - 1)] if k and (w is None or rng.random() < 0.5) else [])))
+            tree = dyn_gen.S("top", kids, T=rng.choice([1, 2, 3]), w=w, pure=rng.random() < 0.5, crit=rng.random() < 0.5)
+            if rng.random() < 0.4:
+                tree = dyn_gen.S("outer", [dict(tree, name="in", pure=False), dyn_gen.J("side", 1, h=9)], pure=rng.random() < 0.5)
+            out.append(("busy-loop", dict(tree=tree, busy=True)))
     if pid in ("C11", "C13"):
         # the top-level run cancelled from outside at some instant (wait_for, task.cancel)
         for sc in dyn_gen.targeted(pid, rng, n_t // 6) + [dyn_gen.gen_tree(rng, depth=rng.choice([1, 2, 2])) for _ in range(n_r // 8)]:
